@@ -12,6 +12,8 @@ imported, so that tbot's own `connector/paramiko.py` imports and `connector.Para
 is the REAL class (its `_connect` is never called).  `--paramiko 0` leaves the environment as
 it is here (paramiko missing, `connector.ParamikoConnector` does not exist).
 
+Host attribute fields that are empty are not set on the class (the connector's default applies).
+
 Usage: sshimpl.py --paramiko {0,1}    (line protocol: one case per line on stdin)
 """
 import contextlib
@@ -176,21 +178,21 @@ class Impl:
             attrs = {}
             if kind in ("g", "l"):
                 attrs["_rec_user"] = unhx(user)
-            elif user != "_":
+            elif user != "":
                 attrs["username"] = unhx(user)
             attrs["_rec_wd"] = unhx(wd)
             if kind in ("s", "p"):
-                if chost != "_":
+                if chost != "":
                     attrs["hostname"] = unhx(chost)
-                if port != "_":
+                if port != "":
                     attrs["port"] = int(port)
-                if hk != "_":
+                if hk != "":
                     attrs["ignore_hostkey"] = hk == "1"
-                if opts != "_":
+                if opts != "":
                     attrs["ssh_config"] = [] if opts == "." else [unhx(o) for o in opts.split(",")]
-                if mux != "_":
+                if mux != "":
                     attrs["use_multiplexing"] = mux == "1"
-                if au != "_":
+                if au != "":
                     a = au.split(":")
                     if a[0] == "n":
                         attrs["authenticator"] = auth.NoneAuthenticator()
@@ -209,7 +211,7 @@ class Impl:
                         attrs["authenticator"] = auth.UndefinedAuthenticator()
                     else:
                         raise BadCase()
-            if sup != "_":
+            if sup != "":
                 j = int(sup)
                 if j >= i or kinds[j] != kind:
                     raise BadCase()
@@ -226,26 +228,26 @@ class Impl:
                 bases = (self.RecFirst, connector.ParamikoConnector, self.RecShell)
             else:
                 raise BadCase()
-            if kind in ("s", "p") and chost == "_":
+            if kind in ("s", "p") and chost == "":
                 raise BadCase()
-            if kind == "p" and user == "_":
+            if kind == "p" and user == "":
                 raise BadCase()
-            if kind in ("g", "l") and (user == "_" or any(x != "_" for x in (chost, port, hk, opts, au, mux))):
+            if kind in ("g", "l") and (user == "" or any(x != "" for x in (chost, port, hk, opts, au, mux))):
                 raise BadCase()
-            if sup != "_":
+            if sup != "":
                 # a subclass lists its resolved attributes: unset only where the parent leaves it unset
                 pf = toks[int(sup)].split("/")
-                if pf[0] != "H" or any(f[k] == "_" and pf[k] != "_" for k in (7, 8, 9, 10, 11)):
+                if pf[0] != "H" or any(f[k] == "" and pf[k] != "" for k in (7, 8, 9, 10, 11)):
                     raise BadCase()
-                if kind in ("s", "p") and user == "_" and pf[4] != "_":
+                if kind in ("s", "p") and user == "" and pf[4] != "":
                     raise BadCase()
             cls = type(f"Mach{i}", bases, attrs)
             v = None
             if kind == "s":
-                if via == "_" or int(via) >= i:
+                if via == "" or int(via) >= i:
                     raise BadCase()
                 v = int(via)
-            elif via != "_":
+            elif via != "":
                 raise BadCase()
             inst = self.instantiate(cls, kind, insts, v)
             inst._case_via = v
